@@ -69,6 +69,11 @@ SHAPES = {
                             "dst": {"files": {}, "doc": {"p": {"q": 2, "keep": 7}, "n": {"x": 9, "keepn": [1]}, "top": 0}}},
     "doc-mixed-type": {"src": {"files": {}, "doc": {"m": {"x": 1}, "k": 1}}, "dst": {"files": {}, "doc": {"m": 5}}},
     "doc-src-empty": {"src": {"files": {"f.txt": F("same")}, "doc": None}, "dst": {"files": {"f.txt": F("same")}, "doc": {"b": 2}}},
+    # a chain of common directories whose upper levels have nothing to copy or resolve themselves
+    "nested-quiet-chain": {"src": {"files": {"a/same.txt": F("same"), "a/b/same2.txt": F("same2"), "a/b/c/new.txt": F("N"),
+                                             "a/b/c/d/new2.txt": F("N2"), "a/b/c/same3.txt": F("same3")}, "doc": None},
+                           "dst": {"files": {"a/same.txt": F("same"), "a/b/same2.txt": F("same2"), "a/b/c/same3.txt": F("same3")},
+                                   "doc": None}},
     "doc-dst-empty": {"src": {"files": {}, "doc": {"a": {"b": 1}}}, "dst": {"files": {}, "doc": None}},
 }
 SHAPE_NAMES = list(SHAPES)
